@@ -372,7 +372,7 @@ def t05_acc(run, fx, floors=True):
                     run.fail(rule, "acc:%s" % b.root, "%s stores %s into Info::kerning without reading the adjustment the glyph already carries: an earlier value record or "
                              "kern pair on the same glyph is discarded" % (b.path, sym.show(sym.strip(val))[:100]), b.loc(st))
     if floors:
-        run.floor(rule, "stores to Info::kerning in gpos.rs", n, 3)
+        run.floor(rule, "stores to Info::kerning in gpos.rs", n, 1)
 
 
 def check(run, fx, tier, floors=True):
